@@ -475,6 +475,9 @@ class Interp:
         callee = self.prog.fns.get(key)
         if callee is None or depth >= self.max_depth:
             return TOP
+        if ci.get("kind") == "Closure" and len(args) == 2 and args[1][0] == "tuple":
+            # "rust-call" ABI: the argument tuple is spread over the closure body's parameters
+            args = [args[0]] + [c.v for c in args[1][1]]
         outs = []
         frame = {i: Cell() for i in range(len(callee.raw["locals"]))}
         for i, a in enumerate(args):
